@@ -12,7 +12,7 @@ what is pushed is read from the path. The unit tests never render rank 1 togethe
 NOT decided: the separator / parentheses characters, superscript digits, the order of the torsion keys.
 """
 import re
-from symex import SymEx, show, strip
+from symex import SymEx, show, strip, subterms
 
 FN = 'yui_homology::misc::format::make_rmod_str'
 
@@ -49,6 +49,30 @@ def _free_kind(s):
         return 'plain'
     if 'new_display(arg1)' in s and 'call(arg4, (arg2))' in s and 'next(' not in s:
         return 'power'
+    return None
+
+
+def _torsion_closure(facts, rets):
+    """torsion part written as tors_count.into_iter().map(|(t, mult)| ..): True when the closure formats (symbol / t) and
+    appends superscript(mult) for mult > 1, False when it formats (symbol / t) without the multiplicity, None if absent"""
+    for p, _ in rets:
+        roots = [p.ret] + [e.pre[0] for e in p.calls() if e.name.split('::')[-1] == 'join' and e.pre]
+        for x in [y for rt in roots for y in subterms(rt)]:
+            if isinstance(x, tuple) and x and x[0] == 'closure':
+                cb = facts.bodies.get(x[1])
+                if cb is None:
+                    continue
+                texts = []
+                for q in SymEx(cb, max_paths=2000).run():
+                    if q.end != 'return':
+                        continue
+                    calls = ' '.join(sk(('call', e.name, e.args, e.site)) for e in q.calls())
+                    texts.append((calls, [(sk(e.term), e.value) for e in q.branches()]))
+                base = any(re.search(r'new_display\(&?\*?arg1\.\^(_ref__)?symbol\)', c) and 'arg2.0' in c for c, _ in texts)
+                if not base:
+                    continue
+                mult = any(re.search(r'call\(&?\*?arg1\.\^(_ref__)?superscript, \(\*?arg2\.1\)\)', c) for c, _ in texts)
+                return bool(mult)
     return None
 
 
@@ -89,18 +113,36 @@ def run(facts, rep):
                     rep.indet('E28: no return path for %s' % inst)
                     continue
                 probs = []
+                unknown = []
                 for p, pushes in rets:
                     r = sk(p.ret)
                     if r == 'to_string("0")':
                         kind, free = 'zero', None
-                    elif r.startswith('join('):
-                        kind = 'join'
-                        fk = [k for k in (_free_kind(x) for x in pushes) if k]
-                        free = fk[0] if len(fk) == 1 else ('none' if not fk else 'several')
-                    elif _free_kind(re.sub(r'^must_use\((.*)\)$', r'\1', r)) or _free_kind(r):
-                        kind, free = 'direct', _free_kind(r) or _free_kind(re.sub(r'^must_use\((.*)\)$', r'\1', r))
                     else:
-                        raise ValueError('return value %s' % r[:80])
+                        # every value that can end up in the output: pushed strings and the sub-terms of the returned expression
+                        pool = list(pushes)
+                        roots = [p.ret] + [e.pre[0] for e in p.calls() if e.name.split('::')[-1] == 'join' and e.pre]
+                        for rt in roots:
+                            for x in subterms(rt):
+                                if isinstance(x, tuple) and x and x[0] in ('call', 'adt'):
+                                    pool.append(sk(x))
+                        fk = set()
+                        for x in pool:
+                            x1 = re.sub(r'^Option::Some\{0: (.*)\}$', r'\1', x)
+                            x1 = re.sub(r'^must_use\((.*)\)$', r'\1', x1)
+                            k_ = _free_kind(x1)
+                            if k_:
+                                fk.add(k_)
+                        joined = r.startswith('join(') or any(x.startswith('join(') for x in pool)
+                        direct = _free_kind(re.sub(r'^must_use\((.*)\)$', r'\1', r)) or _free_kind(r)
+                        if direct and not joined:
+                            kind, free = 'direct', direct
+                        elif joined:
+                            kind = 'join'
+                            free = fk.pop() if len(fk) == 1 else ('none' if not fk else 'several')
+                        else:
+                            unknown.append('return value %s' % r[:80])
+                            continue
                     want = {0: 'none', 1: 'plain'}.get(rank, 'power')
                     if rank == 0 and empty:
                         if kind != 'zero':
@@ -115,10 +157,24 @@ def run(facts, rep):
                 if not empty:
                     tor = [x for p, pushes in loops for x in pushes if 'new_display(arg1)' in x.replace('&', '') and 'next(IT).Some.0.0' in x]
                     mult = [x for x in tor if 'call(arg4, (*next(IT).Some.0.1))' in x.replace('&', '')]
-                    if not tor:
-                        probs.append('no (symbol/t) summand is pushed for the torsion keys')
-                    elif not mult:
-                        probs.append('the multiplicity of a repeated torsion summand is never printed')
+                    loop_form = bool(tor)
+                    clo_form = _torsion_closure(facts, rets)
+                    if loop_form:
+                        if not mult:
+                            probs.append('the multiplicity of a repeated torsion summand is never printed')
+                    elif clo_form is True:
+                        pass
+                    elif clo_form is False:
+                        probs.append('the torsion summands are built without the multiplicity of a repeated summand')
+                    else:
+                        any_tor_loop = any(any('next(IT).Some.0' in x for x in pushes) for p, pushes in loops)
+                        if any_tor_loop or not loops:
+                            unknown.append('torsion part not recognised')
+                        else:
+                            probs.append('no (symbol/t) summand is pushed for the torsion keys')
+                if unknown and not probs:
+                    rep.indet('E28: make_rmod_str outside the recognised fragment (%s): %s' % (inst, '; '.join(sorted(set(unknown)))[:200]))
+                    continue
                 if probs:
                     rep.violation('E28.summands-rendered', inst, 'make_rmod_str: ' + '; '.join(sorted(set(probs))), where=b.where())
                 else:
